@@ -264,24 +264,21 @@ class DelAttrMethod(MethodDescriptor):
 
             attr_spec = self.__spec_class__.attrs.get(attr)
 
-            if (
-                force
-                or not attr_spec
-                or attr_spec.default is MISSING
-                or attr_spec.is_masked
-            ):
+            # Look up the default exactly as the constructor does: default
+            # factories are evaluated and overrides of the class attribute in
+            # (plain) subclasses are respected. The value is a fresh copy.
+            default = MISSING
+            if not force and attr_spec and not attr_spec.is_masked:
+                default = attr_spec.lookup_default_value(type(self))
+
+            if default is MISSING:
                 self.__delattr__.__raw__(self, attr)
                 if not skip_invalidation:
                     invalidate_attrs(self, attr)
                 return None
 
-            return mutate_attr(
-                obj=self,
-                attr=attr,
-                value=protect_via_deepcopy(attr_spec.default),  # handle default factory
-                inplace=True,
-                force=True,
-                skip_invalidation=skip_invalidation,
+            return self.__setattr__(
+                attr, default, force=True, skip_invalidation=skip_invalidation
             )
 
         # Add reference to original __delattr__
